@@ -51,6 +51,11 @@ let handle fields impl : string option * string list =
          | _ -> "nopanic") in
     let impl_p = if model = "ok" || model = "err" then (if starts impl "ok" then "ok" else if starts impl "err" then "err" else proj impl) else proj impl in
     ((if model = impl_p then None else Some ("model=" ^ model ^ " impl=" ^ impl_p)), monitor kind net impl)
+  | ["streamfull"; net; nk; h] ->
+    (* queue full: the items are discarded or the stream is rejected, and the call returns (same verdict as with room) *)
+    let model = oe (handle_offered_contents (Obj.magic (Util.nat_of_int (int_of_string nk))) (b (Util.bytes_of_hex h))) in
+    let impl_p = if starts impl "ok" then "ok" else if starts impl "err" then "err" else proj impl in
+    ((if model = impl_p then None else Some ("model=" ^ model ^ " impl=" ^ impl_p)), monitor "stream" net impl)
   | ["stream"; net; nk; h] ->
     let model = oe (handle_offered_contents (Obj.magic (Util.nat_of_int (int_of_string nk))) (b (Util.bytes_of_hex h))) in
     let impl_p = if starts impl "ok" then "ok" else if starts impl "err" then "err" else proj impl in
